@@ -416,4 +416,14 @@ def timezoneCanon (m : Int) : Str :=
   if m == 0 then ['Z']
   else (if m < 0 then '-' else '+') :: (two (m.natAbs / 60) ++ ':' :: two (m.natAbs % 60))
 
+/-- the whole lexical space of timezoneFrag, generated from the numbers: 'Z', and for each sign every
+hh:mm with 00 ≤ hh ≤ 13, 00 ≤ mm ≤ 59, and 14:00 — 1683 literals with their value in minutes -/
+def timezoneLiterals : List (Str × Int) :=
+  let two (n : Nat) : Str := [Char.ofNat (48 + n / 10), Char.ofNat (48 + n % 10)]
+  let hm : List (Nat × Nat) :=
+    ((List.range 14).flatMap fun h => (List.range 60).map fun m => (h, m)) ++ [(14, 0)]
+  (['Z'], 0) ::
+    (hm.map (fun (h, m) => ('+' :: (two h ++ ':' :: two m), ((h * 60 + m : Nat) : Int))) ++
+     hm.map (fun (h, m) => ('-' :: (two h ++ ':' :: two m), -((h * 60 + m : Nat) : Int))))
+
 end EPV.XSD
